@@ -95,6 +95,12 @@ CLAIMED = {
                   'C08_numbering_dense, C08_back_pointers. Tied by comparing the document\'s instances and processes with the extracted model on generated scenarios in both front ends, and by the full invariant traversal (utapdump check_inv) after hundreds to thousands of faulty parses.',
              design='4/C08',
              note='Pointer stability of std::list / std::deque is runtime behaviour outside the model (back pointers are modelled as (container, index)). "init present when error-free" is checked by the traversal, not proved (it depends on the front ends reporting a missing init; the XTA front end did not: fixed b597bb8).'),
+ 'C05': dict(technique='Coq proof that the XTA grammar\'s callback order (states, branchpoints, flags, init, transitions) builds the same document as the XML reader\'s order, for templates of any size; regenerated production table of the process body; relational correspondence of the two real front ends on generated common-subset models',
+             text='C05_xta_xml_template: for every template with pairwise distinct location names, build (xta_templ m0 t) = build (read_templ m0 t) from any builder state (C05_flags_commute is the part that differs: commit / urgent declared after all locations and branchpoints); C05_failed_edge_isolated. '
+                  'Tied to parser.y by comparing the ProcBody / StateDecl / LocFlags / Init / Transition / Select / Guard / Sync / Assign / Probability productions and their callbacks (bison --xml + action reader) with the modelled structure, '
+                  'and to both front ends by parsing each generated model (accepted, and with the same fault in the same label) in both renderings and comparing diagnostics, document dump, supported-analysis verdict and invariants.',
+             design='4/C05',
+             note='Known finding C05-actname-default (edge_t::actname "SKIP" from XML vs "" from XTA). Declarations and label expressions share one grammar in both formats (text identical in both renderings); positions are C06\'s. The 3.x syntax is not generated.'),
 }
 NOT_YET = 'check not built yet in this revision (work in progress, see DESIGN.md section 7 staging)'
 m = dict(version=1, setup_cmd='tools/setup.sh',
